@@ -9,6 +9,9 @@ package livesim
 import (
 	"bytes"
 	"fmt"
+	"net/http"
+	"net/http/httptest"
+	"net/url"
 	"regexp"
 	"runtime"
 	"strconv"
@@ -39,6 +42,47 @@ type Step struct {
 	FailAt  int    `json:"fail_at_write,omitempty"` // failreq: the client hangs up, every Write from this one on fails
 	Gzip    bool   `json:"accept_gzip,omitempty"`   // request: carries Accept-Encoding: gzip
 	Full    bool   `json:"full_opts,omitempty"`
+	// Hdr: the request carries a header that a page-serving helper might act on
+	// (range / conditional requests); the handler's contract does not mention
+	// any, so the answer must be the same full page.
+	Hdr string `json:"header,omitempty"`
+	// ViaForm: the parameters are not in the URL; a wrapper put them into
+	// req.Form (the usage the package documentation shows).
+	ViaForm bool `json:"via_form,omitempty"`
+}
+
+var reqHeaders = map[string][2]string{
+	"range":             {"Range", "bytes=0-99"},
+	"range-beyond":      {"Range", "bytes=999999999-"},
+	"if-match":          {"If-Match", `"x"`},
+	"if-none-match":     {"If-None-Match", "*"},
+	"if-modified-since": {"If-Modified-Since", "Mon, 02 Jan 2006 15:04:05 GMT"},
+	"if-range":          {"If-Range", `"x"`},
+	"accept-json":       {"Accept", "application/json"},
+	"head-override":     {"X-HTTP-Method-Override", "HEAD"},
+}
+
+var reqHeaderKinds = []string{"range", "range-beyond", "if-match", "if-none-match", "if-modified-since", "if-range", "accept-json", "head-override"}
+
+// mkReq builds the request of a step.
+func mkReq(st Step) *http.Request {
+	var req *http.Request
+	if vals, err := url.ParseQuery(st.Query); st.ViaForm && err == nil {
+		req = httptest.NewRequest(st.Method, "/debug", nil)
+		_ = req.ParseForm()
+		for k, v := range vals {
+			req.Form[k] = v
+		}
+	} else {
+		req = httptest.NewRequest(st.Method, "/debug?"+st.Query, nil)
+	}
+	if h, ok := reqHeaders[st.Hdr]; ok {
+		req.Header.Set(h[0], h[1])
+	}
+	if st.Gzip {
+		req.Header.Set("Accept-Encoding", "gzip")
+	}
+	return req
 }
 
 // Plan is one simulated run.
@@ -230,10 +274,15 @@ func GenPlan(r *core.Rng, seed, run uint64) *Plan {
 				p.Steps = append(p.Steps, Step{Op: "cancelreq", Method: "GET", Query: q})
 				m, q, _ = genQuery(r)
 			}
-			p.Steps = append(p.Steps, Step{Op: "request", Method: m, Query: q, Gzip: r.Chance(0.25)})
+			rq := Step{Op: "request", Method: m, Query: q, Gzip: r.Chance(0.25)}
+			if r.Chance(0.25) {
+				rq.Hdr = reqHeaderKinds[r.Intn(len(reqHeaderKinds))]
+			}
+			rq.ViaForm = r.Chance(0.2)
+			p.Steps = append(p.Steps, rq)
 		case k < 19 && parked < 3:
 			m, q, _ := genQuery(r)
-			st := Step{Op: "startreq", Method: m, Query: q, Park: r.Range(1, 12)}
+			st := Step{Op: "startreq", Method: m, Query: q, Park: r.Range(1, 12), ViaForm: r.Chance(0.15)}
 			if r.Chance(0.4) {
 				st.Park, st.AtStack = 0, true
 			}
